@@ -214,7 +214,10 @@ def run_case(args) -> dict:
         suite0.add_test_case_chromosome(tcc.TestCaseChromosome(build_test(prog, base)))
         base += len(prog)
     if case.get("assertions", True):
-        suite0.accept(ag.AssertionGenerator(executor))
+        # filter=False: no filtering executions (a valid configuration): what the observer recorded is
+        # exported as it is, nothing wrong can be dropped silently before the export
+        suite0.accept(ag.AssertionGenerator(executor) if case.get("filter", True)
+                      else ag.AssertionGenerator(executor, filtering_executions=0))
         # mutation-analysis based generation keeps only the assertions that kill a mutant: statements
         # lose their assertions irregularly.  mask = which statements keep theirs.
         mask = case.get("mask")
